@@ -53,7 +53,7 @@ def tasks(tier, seed):
             for dh in range(0, 4):
                 if d + dh > (2 if q else 3):
                     continue
-                cases = [(w, h, rnd.choice([1, 8, 10, 16])) for (w, h) in sizes]
+                cases = [(w, h, rnd.choice([(1, 1), (8, 8), (10, 8), (16, 12), (8, 10)])) for (w, h) in sizes]
                 if q:
                     cases = rnd.sample(cases, 2)
                 out.append({"id": "codec w%d/%d d%d/%d" % (wi, wh, d, dh), "harness": "codec", "args": (wi, wh, d, dh, cases)})
@@ -72,8 +72,9 @@ def tasks(tier, seed):
 def _codec_state(wi, wh, d, dh, w, h, depth):
     from vc2_conformance.pseudocode.state import State
 
+    ld, cd = depth
     return State(wavelet_index=wi, wavelet_index_ho=wh, dwt_depth=d, dwt_depth_ho=dh, luma_width=w, luma_height=h,
-                 color_diff_width=max(1, w // 2), color_diff_height=h, luma_depth=depth, color_diff_depth=depth)
+                 color_diff_width=max(1, w // 2), color_diff_height=h, luma_depth=ld, color_diff_depth=cd)
 
 
 def _codec_roundtrip(st, pic):
@@ -135,7 +136,8 @@ def build(task):
             rnd = random.Random(k)
             pic = {}
             for c, (cw, ch) in (("Y", (w, hh)), ("C1", (max(1, w // 2), hh)), ("C2", (max(1, w // 2), hh))):
-                pic[c] = [[ctx.sym_int("%s%d_%d" % (c, y, x), 0, (1 << depth) - 1, default=rnd.randrange(1 << depth)) for x in range(cw)] for y in range(ch)]
+                dp = depth[0] if c == "Y" else depth[1]
+                pic[c] = [[ctx.sym_int("%s%d_%d" % (c, y, x), 0, (1 << dp) - 1, default=rnd.randrange(1 << dp)) for x in range(cw)] for y in range(ch)]
             out = _codec_roundtrip(st, pic)
             for c in ("Y", "C1", "C2"):
                 ctx.prove(len(out[c]) == len(pic[c]) and all(len(r) == len(s) for r, s in zip(out[c], pic[c])), "shape", [c])
@@ -345,7 +347,7 @@ def canaries():
                 for x in reversed(range(P.width(band))):
                     if x > 0 and y > 0:
                         s = band[y][x - 1] + band[y - 1][x - 1] + band[y - 1][x]
-                        prediction = (s + 1) // 3 if y == 3 else P.mean(band[y][x - 1], band[y - 1][x - 1], band[y - 1][x])
+                        prediction = s // 3 if y == 3 else P.mean(band[y][x - 1], band[y - 1][x - 1], band[y - 1][x])
                     elif x > 0 and y == 0:
                         prediction = band[0][x - 1]
                     elif x == 0 and y > 0:
